@@ -223,7 +223,7 @@ func fatalSig(stderr string) string {
 		if msg == "" && (strings.HasPrefix(l, "fatal error:") || strings.HasPrefix(l, "runtime: goroutine stack exceeds") || strings.HasPrefix(l, "panic:")) {
 			msg = NormMsg(l)
 		}
-		if fn == "" && strings.HasPrefix(l, "\t/repo/") && !strings.Contains(l, "zz_verif") && i > 0 {
+		if fn == "" && strings.HasPrefix(l, "\t"+RepoDir+"/") && !strings.Contains(l, "zz_verif") && i > 0 {
 			f := strings.TrimSpace(lines[i-1])
 			if j := strings.LastIndex(f, "("); j > 0 {
 				f = f[:j]
